@@ -16,7 +16,7 @@ use std::sync::Mutex;
 use std::time::Instant;
 
 pub const POOL_LIMIT: usize = 65535;
-pub const NKINDS: u64 = 30;
+pub const NKINDS: u64 = 32;
 
 struct B {
     ops: Vec<OpRec>,
@@ -463,6 +463,40 @@ pub fn scenario(seed: u64, idx: u64) -> Trace {
             b.restart(&mut rng);
             trace(seed, idx, Init::Foreign(Box::new(spec)), b.ops, &mut rng)
         }
+        // ---- capacity given back by setting cells to null
+        30 => {
+            let spec = pool_image(POOL_LIMIT, false, &mut rng);
+            let nfree = [3i32, 1, 20][(idx / NKINDS % 3) as usize];
+            b.push(Op::Update { table: "P".into(), sets: vec![("S".into(), Val::Null)], cond: Some(Cond::Cmp("K".into(), CmpOp::Le, Val::Int(nfree))) });
+            if idx / NKINDS % 2 == 1 {
+                b.restart(&mut rng);
+            }
+            b.push(Op::Insert { table: "P".into(), rows: (0..nfree).map(|i| prow(1_000_200 + i, new_str(i as u32))).collect() });
+            b.push(Op::Observe);
+            b.push(Op::Insert { table: "P".into(), rows: vec![prow(1_000_300, new_str(500))] });
+            b.restart(&mut rng);
+            trace(seed, idx, Init::Foreign(Box::new(spec)), b.ops, &mut rng)
+        }
+        // ---- both table limits at once: 32 columns x 65,536 rows
+        31 => {
+            let cols: Vec<ColSpec> = (0..32)
+                .map(|i| {
+                    let mut c = ColSpec::new(&format!("C{}", i + 1), if i == 0 { CType::I32 } else { CType::I16 });
+                    c.key = i == 0;
+                    c.nullable = i != 0;
+                    c
+                })
+                .collect();
+            b.push(Op::CreateTable { name: "Full".into(), cols });
+            let n = [65536i32, 65535, 65537][(idx / NKINDS % 3) as usize];
+            let rows: Vec<Vec<Val>> = (0..n).map(|i| (0..32).map(|c| if c == 0 { Val::Int(i) } else if (i + c) % 5 == 0 { Val::Null } else { Val::Int((i + c) % 300) }).collect()).collect();
+            b.push(Op::Insert { table: "Full".into(), rows });
+            b.push(Op::Select { table: "Full".into(), cols: vec!["C1".into(), "C32".into()], cond: Some(Cond::Cmp("C1".into(), CmpOp::Ge, Val::Int(65530))) });
+            b.push(Op::Delete { table: "Full".into(), cond: Some(Cond::Cmp("C1".into(), CmpOp::Lt, Val::Int(3))) });
+            b.restart(&mut rng);
+            b.push(Op::Select { table: "Full".into(), cols: vec!["C1".into()], cond: Some(Cond::Cmp("C1".into(), CmpOp::Lt, Val::Int(6))) });
+            trace(seed, idx, created, b.ops, &mut rng)
+        }
         // ---- a seeded ordinary history on top of a near-full pool
         _ => {
             let spec = pool_image(POOL_LIMIT - 1 - rng.usize_below(3), false, &mut rng);
@@ -548,7 +582,7 @@ pub fn check(tier: &str, seed: u64) -> i32 {
     let mut extra = BTreeMap::new();
     extra.insert(
         "scenario_kinds".to_string(),
-        serde_json::json!("0-2 columns 31/32/33; 3-5 rows 65535/65536/65537 in one batch; 6-7 rows incrementally (with restarts); 8 rows after deletions; 9-16 string pool at L-1/L with two-byte references (insert, batch, delete-then-insert, update, create_table, restart in between); 17 three-byte references; 18-19 table/column name lengths; 20 stream name lengths; 21 string widths 254/255/256; 22 16-bit refcount saturation; 23 seeded history on a near-full pool; 24 full pool plus a string with a saturated refcount; 25 one row needing two entries when one is free; 26 _Validation at its own 65,536-row limit; 27 full pool, freed slots, existing strings re-used before new ones; 28 read-only sessions on a full pool; 29 capacity freed by sessions that only lower reference counts"),
+        serde_json::json!("0-2 columns 31/32/33; 3-5 rows 65535/65536/65537 in one batch; 6-7 rows incrementally (with restarts); 8 rows after deletions; 9-16 string pool at L-1/L with two-byte references (insert, batch, delete-then-insert, update, create_table, restart in between); 17 three-byte references; 18-19 table/column name lengths; 20 stream name lengths; 21 string widths 254/255/256; 22 16-bit refcount saturation; 23 seeded history on a near-full pool; 24 full pool plus a string with a saturated refcount; 25 one row needing two entries when one is free; 26 _Validation at its own 65,536-row limit; 27 full pool, freed slots, existing strings re-used before new ones; 28 read-only sessions on a full pool; 29 capacity freed by sessions that only lower reference counts; 30 capacity given back by nulling cells; 31 32 columns x 65,536 rows"),
     );
     extra.insert("scenarios_per_kind".to_string(), serde_json::json!(kinds.into_inner().unwrap().into_iter().map(|(k, v)| (k.to_string(), v)).collect::<BTreeMap<_, _>>()));
     let rep = CheckReport {
